@@ -618,13 +618,15 @@ def real_tokens(xtuml, text):
     types in one string and a 64-bit polynomial digest of the lexemes; `illegal` when t_error raised.  The lexer is built
     exactly as ModelLoader.input builds it."""
     global _lexargs
+    import logging
     import os
     from ply import lex
     from sexp import Sym
-    import xtuml.load as load
     if _lexargs is None:
-        _lexargs = dict(debuglog=load.logger, errorlog=load.logger, optimize=1,
-                        outputdir=os.path.dirname(load.__file__), lextab='xtuml.__xtuml_lextab')
+        # loggers are addressed by NAME (the module-level variable that holds the logger is an internal of /repo)
+        log = logging.getLogger('xtuml.load')
+        _lexargs = dict(debuglog=log, errorlog=log, optimize=1,
+                        outputdir=os.path.dirname(os.path.abspath(xtuml.__file__)), lextab='xtuml.__xtuml_lextab')
     lexer = lex.lex(module=xtuml.ModelLoader(), **_lexargs)
     lexer.filename = '<string>'
     lexer.input(text)
